@@ -219,6 +219,16 @@ func TestReplay(t *testing.T) {
 }
 
 func replayOne(rf *vstat.ReplayFile) string {
+	if rf.Property == "C09" && rf.Part == "rich" {
+		var sc richScenario
+		if err := json.Unmarshal(rf.Scenario, &sc); err != nil {
+			return "bad scenario: " + err.Error()
+		}
+		if _, _, err := runRich(&sc); err != nil {
+			return err.Error()
+		}
+		return ""
+	}
 	switch rf.Kind {
 	case "seq", "rapid":
 		if rf.Property == "C09" {
